@@ -10,15 +10,19 @@ namespace Darsia.SolveLoop
 def AllOkBefore (env : Nat → Event) (i : Nat) : Prop := ∀ j, j < i → ∃ br b, env j = .ok br b
 
 /-- invariant of the repaired loop at loop index `i` -/
-structure Good (env : Nat → Event) (i : Nat) (s : LoopState) : Prop where
+structure Good (c : LoopCode) (env : Nat → Event) (i : Nat) (s : LoopState) : Prop where
   consistent : s.distTag = some s.solTag
+  /-- while the loop runs, what the handler would restore the distance from is the current distance (or is re-bound to it at
+  the top of the next pass) -/
+  saved : s.stopped = false → c.saveDistBeforeTry = false → s.savedDist = s.distTag
   running : s.stopped = false → s.flag = false ∧ AllOkBefore env i
   flagged : s.flag = true →
     ∃ i0 br, i0 < i ∧ 1 < i0 ∧ env i0 = .ok br true ∧ s.iter = some i0 ∧ AllOkBefore env i0
 
-theorem Good.mono {env : Nat → Event} {i i' : Nat} {s : LoopState} (h : Good env i s)
-    (hs : s.stopped = true) (hi : i ≤ i') : Good env i' s := by
-  refine ⟨h.consistent, ?_, ?_⟩
+theorem Good.mono {c : LoopCode} {env : Nat → Event} {i i' : Nat} {s : LoopState} (h : Good c env i s)
+    (hs : s.stopped = true) (hi : i ≤ i') : Good c env i' s := by
+  refine ⟨h.consistent, ?_, ?_, ?_⟩
+  · intro h'; rw [hs] at h'; cases h'
   · intro h'; rw [hs] at h'; cases h'
   · intro hf
     obtain ⟨i0, br, h0, rest⟩ := h.flagged hf
@@ -31,16 +35,10 @@ theorem sound_fields (hc : c.sound = true) :
       c.saveIsCopy = true := by
   unfold LoopCode.sound at hc
   simp only [Bool.and_eq_true] at hc
-  obtain ⟨⟨⟨⟨⟨⟨⟨h1, h2⟩, h3⟩, h4⟩, h5⟩, h6⟩, _⟩, _⟩ := hc
+  obtain ⟨⟨⟨⟨⟨⟨⟨⟨h1, h2⟩, h3⟩, h4⟩, h5⟩, h6⟩, _⟩, _⟩, _⟩ := hc
   exact ⟨h1, h2, h3, h4, h5, h6⟩
 
-/-- every body of sound code (also the one an out-of-range branch number selects) writes the iterate and evaluates the
-distance after the last write -/
-theorem sound_body (hc : c.sound = true) (b : Nat) : bodyOk (c.body b) = true := by
-  unfold LoopCode.sound at hc
-  simp only [Bool.and_eq_true, List.all_eq_true, Bool.not_eq_true', List.isEmpty_eq_false_iff] at hc
-  obtain ⟨⟨_, hne⟩, hall⟩ := hc
-  apply hall
+theorem mem_body (hne : c.bodies ≠ []) (b : Nat) : c.body b ∈ c.bodies := by
   unfold LoopCode.body
   cases hb : c.bodies with
   | nil => exact absurd hb hne
@@ -50,26 +48,67 @@ theorem sound_body (hc : c.sound = true) (b : Nat) : bodyOk (c.body b) = true :=
     | none => simp
     | some y => simpa using List.mem_of_getElem? hg
 
-/-- a completed pass of sound code ends with iterate `i+1` and its distance -/
+/-- every body of sound code (also the one an out-of-range branch number selects) writes the iterate and evaluates the
+distance after the last write -/
+theorem sound_body (hc : c.sound = true) (b : Nat) : bodyOk (c.body b) = true := by
+  unfold LoopCode.sound at hc
+  simp only [Bool.and_eq_true, List.all_eq_true, Bool.not_eq_true', List.isEmpty_eq_false_iff] at hc
+  obtain ⟨⟨⟨_, hne⟩, hall⟩, _⟩ := hc
+  exact hall _ (mem_body hne b)
+
+/-- how sound code keeps the saved distance fresh: re-bound at the top of every pass (and never committed by a body), or
+committed by the last statement of every body -/
+theorem sound_save (hc : c.sound = true) (b : Nat) :
+    (c.saveDistBeforeTry = true ∧ ((c.body b).map (·.effect)).contains .commitDist = false) ∨
+    (c.saveDistBeforeTry = false ∧ commitsLast (c.body b) = true) := by
+  unfold LoopCode.sound at hc
+  simp only [Bool.and_eq_true, List.all_eq_true, Bool.not_eq_true', List.isEmpty_eq_false_iff] at hc
+  obtain ⟨⟨⟨_, hne⟩, _⟩, hsv⟩ := hc
+  cases hb : c.saveDistBeforeTry with
+  | true =>
+    rw [hb] at hsv
+    simp only [if_true, List.all_eq_true, Bool.not_eq_true'] at hsv
+    exact Or.inl ⟨rfl, hsv _ (mem_body hne b)⟩
+  | false =>
+    rw [hb] at hsv
+    simp only [Bool.false_eq_true, if_false, List.all_eq_true] at hsv
+    exact Or.inr ⟨rfl, hsv _ (mem_body hne b)⟩
+
+theorem commitsLast_contains {body : List Stmt} (h : commitsLast body = true) :
+    (body.map (·.effect)).contains .commitDist = true := by
+  unfold commitsLast at h
+  simp only [Bool.and_eq_true, beq_iff_eq] at h
+  exact List.contains_iff_mem.2 (List.mem_of_getLast? h.1)
+
+/-- a completed pass of sound code ends with iterate `i+1`, its distance, and (unless it breaks) a fresh saved distance -/
 theorem step_ok (hc : c.sound = true) (s : LoopState) (i b : Nat) (met : Bool) :
     step c s i (.ok b met) =
       if 1 < i ∧ met = true then
-        { s with iter := some i, solTag := i + 1, distTag := some (i + 1), flag := true, stopped := true }
-      else { s with iter := some i, solTag := i + 1, distTag := some (i + 1) } := by
+        { s with iter := some i, savedDist := if c.saveDistBeforeTry then s.distTag else s.savedDist,
+                 solTag := i + 1, distTag := some (i + 1), flag := true, stopped := true }
+      else { s with iter := some i, solTag := i + 1, distTag := some (i + 1),
+                    savedDist := if c.saveDistBeforeTry then s.distTag else some (i + 1) } := by
   have hb := sound_body hc b
   unfold bodyOk at hb
   simp only [Bool.and_eq_true, Bool.not_eq_true'] at hb
   obtain ⟨⟨h1, h2⟩, h3⟩ := hb
-  simp only [step, h1, h2, h3, if_true, Bool.not_false, Bool.and_self]
+  rcases sound_save hc b with ⟨hs1, hs2⟩ | ⟨hs1, hs2⟩
+  · simp only [step, h1, h2, h3, hs1, hs2, if_true, Bool.not_false, Bool.and_self, Bool.false_eq_true, if_false]
+  · have hcm := commitsLast_contains hs2
+    simp only [step, h1, h2, h3, hs1, hcm, if_true, Bool.not_false, Bool.and_self, Bool.false_eq_true, if_false]
 
-/-- a fault at any statement of any body: the handler of sound code leaves iterate and distance untouched -/
-theorem step_fail (hc : c.sound = true) (s : LoopState) (i b a : Nat) :
-    step c s i (.fail b a) = { s with iter := some i, stopped := true } := by
+/-- a fault at any statement of any body: the handler of sound code returns to the iterate and the distance the pass
+started with -/
+theorem step_fail (hc : c.sound = true) (s : LoopState) (hsv : c.saveDistBeforeTry = false → s.savedDist = s.distTag)
+    (i b a : Nat) :
+    step c s i (.fail b a) = { s with iter := some i, savedDist := s.distTag, stopped := true } := by
   obtain ⟨h1, h2, _, _, _, h6⟩ := sound_fields hc
-  simp [step, h1, h2, h6]
+  cases hb : c.saveDistBeforeTry with
+  | true => simp [step, h1, h2, h6, hb]
+  | false => simp [step, h1, h2, h6, hb, hsv hb]
 
-theorem good_step (hc : c.sound = true) {env : Nat → Event} {i : Nat} {s : LoopState} (h : Good env i s)
-    (hs : s.stopped = false) : Good env (i + 1) (step c s i (env i)) := by
+theorem good_step (hc : c.sound = true) {env : Nat → Event} {i : Nat} {s : LoopState} (h : Good c env i s)
+    (hs : s.stopped = false) : Good c env (i + 1) (step c s i (env i)) := by
   obtain ⟨hflag, hall⟩ := h.running hs
   have hc0 := h.consistent
   have hall' : ∀ br b, env i = .ok br b → AllOkBefore env (i + 1) := fun br b hb j hj => by
@@ -81,28 +120,32 @@ theorem good_step (hc : c.sound = true) {env : Nat → Event} {i : Nat} {s : Loo
     rw [step_ok hc]
     by_cases hm : 1 < i ∧ met = true
     · simp only [hm, and_self, if_true]
-      refine ⟨rfl, ?_, ?_⟩
+      refine ⟨rfl, ?_, ?_, ?_⟩
+      · intro h'; cases h'
       · intro h'; cases h'
       · intro _
         refine ⟨i, br, Nat.lt_succ_self i, hm.1, ?_, rfl, hall⟩
         rw [he, hm.2]
     · simp only [hm, if_false]
-      refine ⟨rfl, ?_, ?_⟩
+      refine ⟨rfl, ?_, ?_, ?_⟩
+      · intro _ hb; simp [hb]
       · intro _; exact ⟨hflag, hall' br met he⟩
       · intro hf; simp only [hflag] at hf; cases hf
   | nan =>
     simp only [step]
-    refine ⟨rfl, ?_, ?_⟩
+    refine ⟨rfl, ?_, ?_, ?_⟩
+    · intro h'; cases h'
     · intro h'; cases h'
     · intro hf; simp only [hflag] at hf; cases hf
   | fail b a =>
-    rw [step_fail hc]
-    refine ⟨hc0, ?_, ?_⟩
+    rw [step_fail hc s (h.saved hs)]
+    refine ⟨hc0, ?_, ?_, ?_⟩
+    · intro h'; cases h'
     · intro h'; cases h'
     · intro hf; simp only [hflag] at hf; cases hf
 
-theorem good_runFrom (hc : c.sound = true) {env : Nat → Event} : ∀ (fuel i : Nat) (s : LoopState), Good env i s →
-    Good env (i + fuel) (runFrom c env fuel i s)
+theorem good_runFrom (hc : c.sound = true) {env : Nat → Event} : ∀ (fuel i : Nat) (s : LoopState), Good c env i s →
+    Good c env (i + fuel) (runFrom c env fuel i s)
   | 0, _, _, h => h
   | fuel + 1, i, s, h => by
     unfold runFrom
@@ -114,13 +157,14 @@ theorem good_runFrom (hc : c.sound = true) {env : Nat → Event} : ∀ (fuel i :
       rw [Nat.add_assoc, Nat.add_comm 1 fuel] at this
       exact this
 
-theorem good_init (hc : c.sound = true) (env : Nat → Event) : Good env 0 (init c) := by
+theorem good_init (hc : c.sound = true) (env : Nat → Event) : Good c env 0 (init c) := by
   obtain ⟨_, _, _, h4, h5, _⟩ := sound_fields hc
-  refine ⟨by simp [init, h4], ?_, ?_⟩
+  refine ⟨by simp [init, h4], ?_, ?_, ?_⟩
+  · intro _ _; simp [init]
   · intro _; exact ⟨by simp [init], fun j hj => absurd hj (Nat.not_lt_zero j)⟩
   · intro hf; simp [init] at hf
 
-theorem good_run (hc : c.sound = true) (env : Nat → Event) (n : Nat) : Good env n (run c n env) := by
+theorem good_run (hc : c.sound = true) (env : Nat → Event) (n : Nat) : Good c env n (run c n env) := by
   have := good_runFrom hc n 0 _ (good_init hc env)
   rw [Nat.zero_add] at this
   exact this
@@ -133,11 +177,11 @@ def Reaches (env : Nat → Event) (j : Nat) : Prop :=
 theorem runFrom_fault (hc : c.sound = true) {env : Nat → Event} {j : Nat} (hr : Reaches env j)
     (hf : (env j).isFail = true) :
     ∀ (fuel i : Nat) (s : LoopState), s.stopped = false → i ≤ j → j < i + fuel →
-      s.solTag = i → s.distTag = some i → s.flag = false →
+      s.solTag = i → s.distTag = some i → s.flag = false → (c.saveDistBeforeTry = false → s.savedDist = s.distTag) →
       let r := runFrom c env fuel i s
       r.solTag = j ∧ r.distTag = some j ∧ r.iter = some j ∧ r.flag = false ∧ r.stopped = true
-  | 0, i, s, _, hij, hj, _, _, _ => by omega
-  | fuel + 1, i, s, hs, hij, hj, hsol, hdist, hflag => by
+  | 0, i, s, _, hij, hj, _, _, _, _ => by omega
+  | fuel + 1, i, s, hs, hij, hj, hsol, hdist, hflag, hsv => by
     have stay : ∀ (t : LoopState), t.stopped = true → ∀ f i', runFrom c env f i' t = t := by
       intro t ht f i'
       cases f with
@@ -147,16 +191,23 @@ theorem runFrom_fault (hc : c.sound = true) {env : Nat → Event} {j : Nat} (hr 
     simp only [hs]
     rcases Nat.lt_or_eq_of_le hij with hlt | rfl
     · obtain ⟨br, b, hb, hnb⟩ := hr i hlt
-      have hstep : step c s i (env i) = { s with iter := some i, solTag := i + 1, distTag := some (i + 1) } := by
-        rw [hb, step_ok hc, if_neg hnb]
-      rw [hstep]
-      exact runFrom_fault hc hr hf fuel (i + 1) _ hs (by omega) (by omega) rfl rfl hflag
+      have hstep := step_ok hc s i br b
+      rw [if_neg hnb] at hstep
+      rw [hb, hstep]
+      exact runFrom_fault hc hr hf fuel (i + 1) _ hs (by omega) (by omega) rfl rfl hflag (fun hbf => by simp [hbf])
     · cases he : env i with
       | ok br m => rw [he] at hf; cases hf
       | nan => rw [he] at hf; cases hf
       | fail b a =>
         simp only [Bool.false_eq_true, if_false]
-        rw [step_fail hc, stay _ rfl]
+        rw [step_fail hc s hsv, stay _ rfl]
         exact ⟨hsol, hdist, rfl, hflag, rfl⟩
+
+/-- a guarded post-loop failure (Bregman's pressure post-processing) only replaces the pressure by the NaN marker; without a
+failure the pressure belongs to the returned iterate -/
+theorem finish_guarded (hp : c.post = .guarded) (s : LoopState) (postFails : Bool) :
+    finish c s postFails = .ok { state := s, pressure := if postFails then none else some s.solTag } := by
+  unfold finish
+  cases postFails <;> simp [hp]
 
 end Darsia.SolveLoop
